@@ -19,11 +19,38 @@ Proof.
   apply (run_S_mono pstate act cond mark exec_S exec_M ev exec_mono). exact H.
 Qed.
 
-(* with total conditions the reference machine accepts every structured program
-   that does not redefine a macro differently: the analysis cannot fail there *)
-Lemma ev_total_if (c : cond) p :
-  c <> CBad -> (forall m, lookup m (menv p) <> Some VEmpty) -> exists b, ev c p = Ok b.
+(* the alias chain of an identifier is followed with enough fuel: expansion of an
+   identifier never runs out of fuel, whatever the macro table (cycles included) *)
+Lemma lookup_key (m : string) (e : env) v : lookup m e = Some v -> In m (map fst e).
 Proof.
-  intros Hc H. destruct c as [m|m|m|m k|m k|k|]; cbn; eauto; try congruence;
-    unfold ident_val; specialize (H m); destruct (lookup m (menv p)) as [[|z]|]; cbn; eauto; congruence.
+  induction e as [|[k w] e IH]; cbn; [discriminate|].
+  destruct (String.eqb k m) eqn:E; [apply String.eqb_eq in E; subst; auto|auto].
+Qed.
+
+Lemma ident_val_fuel (e : env) : forall fuel seen m,
+  NoDup seen -> incl seen (map fst e) -> ~ In m seen ->
+  List.length e < fuel + List.length seen ->
+  ident_val_f fuel seen m e <> Err "OutOfFuel: alias chain".
+Proof.
+  induction fuel as [|f IH]; intros seen m Hnd Hin Hm Hlen; cbn [ident_val_f];
+    destruct (lookup m e) as [[|z|m']|] eqn:El; try discriminate.
+  - destruct (existsb (String.eqb m') (m :: seen)) eqn:Ex; [discriminate|].
+    exfalso. assert (Hk := lookup_key _ _ _ El).
+    assert (NoDup (m :: seen)) by (constructor; assumption).
+    assert (incl (m :: seen) (map fst e)) by (intros x [<-|Hx]; auto).
+    pose proof (NoDup_incl_length H H0) as L. rewrite map_length in L. cbn in *. Lia.lia.
+  - destruct (existsb (String.eqb m') (m :: seen)) eqn:Ex; [discriminate|].
+    assert (Hk := lookup_key _ _ _ El).
+    apply IH.
+    + constructor; assumption.
+    + intros x [<-|Hx]; auto.
+    + intros Hc. assert (existsb (String.eqb m') (m :: seen) = true); [|congruence].
+      apply existsb_exists. exists m'. split; [exact Hc|apply String.eqb_refl].
+    + cbn. Lia.lia.
+Qed.
+
+Theorem ident_val_never_out_of_fuel (m : string) (e : env) :
+  ident_val m e <> Err "OutOfFuel: alias chain".
+Proof.
+  unfold ident_val. apply ident_val_fuel; [constructor|intros x []|intros []|cbn; Lia.lia].
 Qed.
